@@ -251,6 +251,10 @@ def concurrent_offer(ctx, count):
             raise Inconclusive(f"reference observation unusable: {want}")
         for mode, pct in (("uniform", None), ("pct2", 2)):
             r = vh.call(op="sched_scenario", setup=setup, threads=threads, after=after, seed=ctx.seed * 53 + 11, count=count, pct=pct, est=200, timeout=1800)
+            if isinstance(r, dict) and r.get("sched_deadlock"):
+                # every thread of the scenario is blocked on a map lock held by another: no outcome at all
+                ctx.violation({"kind": "deadlock-under-scheduler", "where": "c18"}, {"detail": str(r.get("detail", ""))[:1500]})
+                break
             if "distinct_schedules" not in r:
                 raise Inconclusive(f"harness refused the scenario: {str(r)[:300]}")
             ctx.judged(count)
